@@ -111,6 +111,17 @@ func c11CheckSquare(r *core.Rec, m lin.M, what string) {
 		return
 	}
 	r.AddTransitions(1)
+	if err != nil {
+		var err2 error
+		if pi := core.Catch(func() { _, err2 = g.Inverse() }); pi != nil {
+			r.Violatef("inverse-panic:"+pi.Frame, "%s (repeated call): %s", what, pi.Value)
+			return
+		}
+		r.AddTransitions(1)
+		if err2 == nil {
+			r.Violatef("inverse-repeated-call-differs", "%s: Inverse returned %v, the same call repeated returned nil", what, err)
+		}
+	}
 	var singular bool
 	if n <= 4 {
 		singular = lin.DetCofactor(m) == 0
@@ -164,6 +175,20 @@ func c11CheckSquare(r *core.Rec, m lin.M, what string) {
 			return
 		}
 		r.AddTransitions(1)
+		if rerr != nil {
+			// the same call again, right away (a caller that retries a refused system): the answer has to be the same -
+			// what a refused call leaves behind must not be mistaken for its result
+			var red2 gf2p16.Matrix
+			var rerr2 error
+			if pi := core.Catch(func() { red2, rerr2 = g.RowReduceForInverse(gn) }); pi != nil {
+				r.Violatef("rowreduce-panic:"+pi.Frame, "%s (repeated call): %s", what, pi.Value)
+				return
+			}
+			r.AddTransitions(1)
+			if rerr2 == nil {
+				r.Violatef("rowreduce-repeated-call-differs", "%s: RowReduceForInverse returned %v, the same call repeated returned nil (%dx%d result)", what, rerr, len(fromG(red2, n, cols)), cols)
+			}
+		}
 		if singular != (rerr != nil) {
 			r.Violatef("rowreduce-singularity-wrong", "%s: RowReduceForInverse err=%v, reference singular=%v for %v", what, rerr, singular, c11Show(m))
 		} else if !singular {
